@@ -83,6 +83,28 @@ def run_case(case, pname, variant, occ=0):
                     problems.append('isunique(key=%r) %r, spec %r' % (sp, etl.isunique(t, sp), case['isunique']))
             except Exception as e:
                 problems.append('distinct(key=%r, count) / isunique raised %r' % (sp, e))
+    if case['key'] == 'kv' and not kw:
+        # (a) a header that repeats a field name, the key naming it twice = both columns; (b) the input is itself a sort
+        # view on a compound key of which the dedup key is NOT a leading part
+        try:
+            ta = [['a', 'a', 'x']] + [list(r) + [i] for i, r in enumerate(t[1:])]
+            for label, fn, want in (('duplicates', etl.duplicates, case['dup']), ('unique', etl.unique, case['uniq']), ('distinct', etl.distinct, case['dist'])):
+                got = [list(prof.absrow(r[:2])) for r in fn(ta, key=('a', 'a'))][1:]
+                if sorted(got) != sorted(want):
+                    problems.append("%s(key=('a','a')) on header (a, a, x) delivered %r, spec (multiset) %r" % (label, got, want))
+        except Exception as e:
+            problems.append("dedup with key=('a','a') on a repeated field name raised %r" % (e,))
+    if case['key'] == 'k' and not kw:
+        try:
+            sv = etl.sort(t, ('v', 'k'))
+            for label, fn, want in (('duplicates', etl.duplicates, case['dup']), ('unique', etl.unique, case['uniq']), ('distinct', etl.distinct, case['dist'])):
+                got = [list(prof.absrow(r)) for r in fn(sv, key='k')][1:]
+                if sorted(got) != sorted(want) and label != 'distinct':
+                    problems.append('%s(sort(t, (v, k)), key=k) delivered %r, spec (multiset) %r' % (label, got, want))
+                if label == 'distinct' and sorted(r[0] for r in got) != sorted(r[0] for r in want):
+                    problems.append('distinct(sort(t, (v, k)), key=k) delivered keys %r, spec %r' % ([r[0] for r in got], [r[0] for r in want]))
+        except Exception as e:
+            problems.append('dedup over a sort view raised %r' % (e,))
     if case['key'] == 'k' and not kw:
         # include / exclude given as ONE field name (a string) while another field's name is a substring of it
         try:
